@@ -323,6 +323,16 @@ def scenarios(prop, tier, rng):
         out.append(("n3leader", scen(n=3, pol=pol(3, 0, 1, "leader"))))
         out.append(("n2typedF", scen(n=2, pol=pol(2, 0, 1, "typed"))))
         out.append(("n2typedL", scen(n=2, pol=pol(2, 0, 0, "typed"))))
+        # "at any single follower": every (leader, offending follower) pair for n = 3 with a program WITHOUT constants, the
+        # configuration in which a matching follower that is told to run starts the MPC at once (with constants it would
+        # only send those and wait)
+        k = 0
+        for leader in range(3):
+            for bad in range(3):
+                if bad != leader:
+                    out.append((f"n3nc.L{leader}B{bad}", scen(n=3, pol=pol(3, leader, bad, ("prog", "leader")[k % 2],
+                                                                       consts=[False, False, False]))))
+                    k += 1
         if not q:
             out.append(("n3leader2", scen(n=3, pol=pol(3, 2, 0, "leader", consts=[False, True, False]))))
             out.append(("n3typed", scen(n=3, pol=pol(3, 1, 2, "typed"))))
